@@ -173,7 +173,8 @@ def path_filter(c, job):
         for k in range(job["K"]):
             env.advance()
             lvl = c.integer(f"level{k}", 0, 60)
-            rec = types.SimpleNamespace(levelno=lvl)
+            # the record's creation time is wall-clock time: unrelated to the monotonic clock (the wall clock may be stepped)
+            rec = types.SimpleNamespace(levelno=lvl, created=c.real(f"wall{k}", 0, 10 ** 6), msg="m", name="log")
             r = F.filter(rec)
             high = bool(lvl >= bypass)
             c.reach("filter-record")
